@@ -171,6 +171,22 @@ pub enum TruthEv {
 #[derive(Debug, Default)]
 pub struct Truth {
     pub events: Vec<(u64, TruthEv)>,
+    /// Simulated time (ms since the start of the run) of the events recorded by the model agent's own handlers:
+    /// (step, ms).
+    pub handler_times: Vec<(u64, u64)>,
+}
+
+thread_local! {
+    static RUN_T0: std::cell::Cell<Option<tokio::time::Instant>> = const { std::cell::Cell::new(None) };
+}
+
+/// Called at the start of a run (on the run's own thread).
+pub fn set_run_t0(t0: tokio::time::Instant) {
+    RUN_T0.with(|c| c.set(Some(t0)));
+}
+
+fn sim_ms() -> u64 {
+    RUN_T0.with(|c| c.get()).map(|t0| (tokio::time::Instant::now() - t0).as_millis() as u64).unwrap_or(0)
 }
 
 pub type SharedTruth = Arc<Mutex<Truth>>;
@@ -219,7 +235,9 @@ impl std::error::Error for SimFail {}
 
 impl SimLifecycle {
     fn rec(&self, ev: TruthEv) {
-        self.truth.lock().unwrap().events.push((now_step(), ev));
+        let mut t = self.truth.lock().unwrap();
+        t.events.push((now_step(), ev));
+        t.handler_times.push((now_step(), sim_ms()));
     }
 }
 
